@@ -236,9 +236,9 @@ char *igris_f32toa(float32_t f, char *buf, int8_t precision)
 
     if (isinf(f))
     {
-        *buf++ = f > 0 ? '+' : '-';
-        return strcpy(buf, "inf");
-        ;
+        *ptr++ = f > 0 ? '+' : '-';
+        strcpy(ptr, "inf");
+        return buf;
     }
 
     if (isnan(f))
